@@ -589,7 +589,7 @@ structure PlRT (L : Nat) (x : Expr Bytes) : Prop where
   ser : ∀ (w : Writer) (nl : Bool), WS w L nl →
     ∃ w', serElement w (.placeable x) = some w' ∧
       w'.buffer = w.buffer ++ ((if nl then spacesL (4 * L) else []) ++ exprText L x).toArray ∧ WS w' L false
-  parse : ∀ (s : Src) (p n : Nat), AsciiThenBoundary s → At s p (exprText L x) → 3 * (exprText L x).length ≤ n →
+  parse : ∀ (s : Src) (p n : Nat), AsciiThenBoundary s → At s p (exprText L x) → 4 * (exprText L x).length + 11 ≤ n →
     ∃ ex, getPlaceable s n (p + 1) = .ok ex (p + (exprText L x).length) ∧ ex.mapS (spanBytes s) = x
 
 theorem mlRole_false {r : TextPos} (h : mlRole false r) : (r == .lineStart) = false := by simpa [mlRole] using h
@@ -720,7 +720,7 @@ theorem mlLoop {s : Src} (hs : AsciiThenBoundary s) (L : Nat) (es : List (PatEle
       ciAfter (4 * L) st.commonIndent (excesses nl es) = cfin →
       (excesses nl es ≠ [] → cfin = some (4 * L)) → Bnd s p →
       At s p (elemsText L nl es ++ [10]) → PatFollow s (p + (elemsText L nl es).length + 1) q' →
-      3 * (elemsText L nl es).length + (q' - p) + 3 ≤ n →
+      4 * (q' - p) + 8 ≤ n →
       ∃ phs tr, getPatternLoop s n st p =
           .ok ⟨st.elements ++ phs ++ tr,
             (if es.isEmpty then st.lastNonBlank else some (st.elements.length + phs.length - 1)),
@@ -728,6 +728,7 @@ theorem mlLoop {s : Src} (hs : AsciiThenBoundary s) (L : Nat) (es : List (PatEle
   induction es with
   | nil =>
     intro _ nl n p q' st cfin _ _ hnl _ _ hrole hci _ hb hat hf hn
+    have hq' := hf.1
     have : nl = false := hnl rfl
     subst this
     simp only [elemsText, List.nil_append, at_cons, List.length_nil, Nat.add_zero] at hat hf hn
@@ -736,6 +737,7 @@ theorem mlLoop {s : Src} (hs : AsciiThenBoundary s) (L : Nat) (es : List (PatEle
     exact ⟨[], tr, by rw [htr, ← hci]; simp, by simp [MPh]⟩
   | cons e es ih =>
     intro hpl nl n p q' st cfin hml hlast _ hL hnlL hrole hci hcf hb hat hf hn
+    have hq' := hf.1
     have hpl' : ∀ x, PatElem.placeable x ∈ es → PlRT L x := fun x hx => hpl x (List.mem_cons_of_mem _ hx)
     have ih' := ih hpl'
     have hlast' := mlLastOK_tail hlast
